@@ -12,7 +12,7 @@ from vlib.kernel import KernelBuild, located_rules
 from . import _common
 
 ID = "K23"
-SERVES = ["C09", "C13"]
+SERVES = ["C09", "C03", "C13"]
 TITLE = "setValueType: usual arithmetic conversions of two integer operands"
 
 HARNESS = r'''
@@ -117,6 +117,19 @@ void h_compare(void) {
     __CPROVER_assert(!ff, "operands that are not objects of a class: no overloaded operator is looked up");
     if (is_cpp) __CPROVER_assert(rt == VType_BOOL, "C++: comparison and logical operators have type bool");
     else __CPROVER_assert(rt == VType_INT && rs == Sign_SIGNED, "C: comparison and logical operators have type int");
+}
+/* a << b, a >> b: the result has the type of the promoted left operand (C11 6.5.7p3) */
+void h_shift(void) {
+    enum VType t1 = (enum VType)nondet_int(); enum Sign s1 = (enum Sign)nondet_int(); _Bool is_cpp = nondet_bool(), has2 = nondet_bool(), int2 = nondet_bool();
+    __CPROVER_assume(t1 >= VType_BOOL && t1 <= VType_LONGLONG && t1 != VType_WCHAR_T && s1 >= Sign_UNKNOWN_SIGN && s1 <= Sign_UNSIGNED);
+    __CPROVER_assume(t1 == VType_BOOL ? s1 == Sign_UNKNOWN_SIGN : (t1 == VType_CHAR || s1 != Sign_UNKNOWN_SIGN));
+    g_in_t1 = t1; g_in_s1 = s1; g_in_cpp = is_cpp;
+    enum VType rt = VType_UNKNOWN_TYPE; enum Sign rs = Sign_UNKNOWN_SIGN; _Bool set = 0;
+    shift_block(t1, s1, has2, int2, is_cpp, &rt, &rs, &set);
+    if (is_cpp && !(has2 && int2)) return;          /* C++ with a right operand that is not an integer (operator<< of a stream): no type, not decided */
+    __CPROVER_assert(set, "a shift of integer operands gets a type");
+    if (t1 < VType_INT) __CPROVER_assert(rt == VType_INT && rs == Sign_SIGNED, "a left operand narrower than int is promoted to (signed) int");
+    else __CPROVER_assert(rt == t1 && rs == s1, "otherwise the result has the type and signedness of the left operand");
 }
 int g_in_szt;
 /* p - q: the result has type ptrdiff_t, the signed integer type as wide as size_t (and as a pointer) on the built-in platforms */
@@ -259,6 +272,25 @@ def build(ctx):
         raise extract.ExtractError("K23: the comparison branch was not fully lowered: %r" % re.findall(r'[^\n]*(?:\btok\b|mSettings|Function)[^\n]*', extract.mask(tcmp))[:3])
     cmp_fn = ("void compare_block(_Bool is_cpp, _Bool is_comparison, _Bool class_operand, _Bool has_function, enum VType *rt, enum Sign *rs, _Bool *from_function)\n{\n%s\n}\n"
               % extract.strip_comments(tcmp))
+    # shift operators: the result has the type of the promoted left operand
+    hsft = [mo for mo in re.finditer(r'if \(vt1 && Token::Match\(parent, "[^"]*"\)\)\s*\{', msv) if fsv.text[mo.start():mo.end()].startswith('if (vt1 && Token::Match(parent, "<<|>>"))')]
+    if len(hsft) != 1:
+        raise extract.ExtractError("setValueType: branch of the shift operators found %d times" % len(hsft))
+    obs = hsft[0].end() - 1
+    cbs = extract.match_brace(fsv.text, obs, msv)
+    regs = extract.Located("lib/symboldatabase.cpp", fsv.text[obs + 1:cbs], fsv.start + obs + 1, fsv.start + cbs, extract.read("lib/symboldatabase.cpp"))
+    kb.add_located("SymbolDatabase::setValueType [shift operators]", regs, "region")
+    tsf, k = located_rules(regs, _common.VT_RULES + [
+        (r'!parent->isCpp\(\) \|\| \(vt2 && vt2->isIntegral\(\)\)', '!shift_is_cpp || (has_vt2 && vt2_integral)', 1, 1),
+        (r'\bValueType vt\(\*vt1\)\s*;', 'struct VT vt; vt.type = vt1_type; vt.sign = vt1_sign;', 1),
+        (r'\bvt\.reference = Reference::None\s*;', '', 1),
+        (r'\bsetValueType\(parent,\s*vt\)\s*;', '{ *rt = vt.type; *rs = vt.sign; *set = 1; }', 1),
+        (r'\bvt1->(type|sign)\b', r'vt1_\1', 1),
+    ], ID + ".shift"); n += k
+    if re.search(r'\bparent\b|\bvt[12]\b(?!_)|Reference', extract.mask(tsf)):
+        raise extract.ExtractError("K23: the shift branch was not fully lowered: %r" % re.findall(r'[^\n]*(?:\bparent\b|\bvt[12]\b(?!_)|Reference)[^\n]*', extract.mask(tsf))[:3])
+    shift_fn = ("void shift_block(enum VType vt1_type, enum Sign vt1_sign, _Bool has_vt2, _Bool vt2_integral, _Bool shift_is_cpp, enum VType *rt, enum Sign *rs, _Bool *set)\n{\n%s\n}\n"
+                % extract.strip_comments(tsf))
     ternary_fn = ("/* 0: the conversions below decide, 1 / 2: the result has the type of operand 1 / 2 */\n"
                   "int ternary_select(enum VType vt1_type, enum Sign vt1_sign, int vt1_pointer, _Bool has_vt2, enum VType vt2_type, enum Sign vt2_sign, int vt2_pointer, _Bool other_equal)\n{\n    int sel = 0;\n%s\n    return 0;\n}\n"
                   % extract.strip_comments(tt))
@@ -270,6 +302,7 @@ def build(ctx):
     out.append(ternary_fn)
     out.append(ptr_fn)
     out.append(cmp_fn)
+    out.append(shift_fn)
     out.append("void conv_block(enum VType vt1_type, enum Sign vt1_sign, _Bool has_vt2, enum VType vt2_type, enum Sign vt2_sign, _Bool ternary, const struct Platform *platform, enum VType *rt, enum Sign *rs)\n{\n%s\n    *rt = vt.type; *rs = vt.sign;\n}\n"
                % extract.strip_comments(t))
     kb.rules_fired = n
@@ -283,6 +316,7 @@ def build(ctx):
     kb.job("compare", "h_compare", note="loop-free region; C++ files")
     kb.job("compare.c", "h_compare", kind="known", finding="K23.comparison-bool-in-c", props=["C09"], defines=["CLASS_C"], expect_fail=["h_compare.assertion"],
            note="recorded finding class: C files")
+    kb.job("shift", "h_shift", note="loop-free region: every integer left operand type, C and C++")
     kb.job("ptrdiff", "h_ptrdiff", note="loop-free region: int 2/4, long 4/8, size_t as wide as one of int / long / long long")
     kb.job("getIntegerTypeSize", "h_size", note="loop-free: complete")
     kb.job("cover", "h_cover", kind="cover")
